@@ -9,7 +9,7 @@
                           paths of plain components
      fs_ok c f            every path is clean absolute, every entry's parent is a directory entry,
                           no <layers>/<x>/layerconfig is a symbolic link
-     no_stale_tmp c f cmd for rebase / rename: no left-over layerconfig.tmp in the layers that are rewritten
+     no_stale_tmp c f cmd for rename: no left-over layerconfig.tmp in the renamed layer and its children
    Proofs/C02ExP.v shows a two-layer world satisfying all of them, and worlds violating each. *)
 From LC Require Import Lib.Bytes Lib.Lex Lib.Fields Lib.PathM Model.Config Gen.Consts
   Model.MountInfo Model.FsTree Model.Kernel Model.Layers Cases.Verdict Cases.LC Cases.C02
@@ -42,10 +42,11 @@ Proof. exact breaking_refused_view. Qed.
 Print Assumptions C02_breaking_refused.
 
 (* (c) the forest stays a forest.  In scope ([in_scope e cmd res]):
-     - init, add, rebase, remove, mkdirs, umount, shake, probe and the hand-made kernel mounts: at EVERY exit
+     - init, add, rebase, remove, mkdirs, umount, shake, probe and the hand-made kernel mounts (not the
+       hand-made file edit CEdit, which may rewrite a layerconfig): at EVERY exit
        (success, refusal, injected failure, crash at any operation) in every environment;
      - rename: when it reports success;
-     - every command in pretend mode.
+     - every layercake command in pretend mode.
    Out of scope: mount, chroot with operations carried out; rename that stops half way (refuted
    below).
    FULL STATEMENT (false of the model, see C02_forest_preserved_refuted):
@@ -94,9 +95,10 @@ Theorem C02_frame : forall c f f',
 Proof. exact frame_both. Qed.
 Print Assumptions C02_frame.
 
-(* pretend mode leaves the file tree exactly as it is, for every command *)
+(* pretend mode leaves the file tree exactly as it is, for every layercake command (CEdit, somebody
+   editing a file by hand, is not layercake and ignores the flag) *)
 Theorem C02_pretend_fs_unchanged : forall cfg w e cmd um,
-  names_distinct cfg w = true -> e_pretend e = true ->
+  names_distinct cfg w = true -> e_pretend e = true -> is_edit cmd = false ->
   wo_fs (v_after (view_of_model cfg w e cmd um)) = wo_fs w.
 Proof. exact pretend_fs_unchanged_view. Qed.
 Print Assumptions C02_pretend_fs_unchanged.
@@ -104,27 +106,30 @@ Print Assumptions C02_pretend_fs_unchanged.
 (* (d) a successful rebase (operations carried out: any environment that is not pretend, in particular
    the plain one) changes exactly that layer's parent: every other entry of the tree is identical,
    nothing new appears, the layer's definition is the old one with the new base.
-   FULL STATEMENT (without no_stale_tmp) is false: C02_rebase_exact_refuted. *)
-Theorem C02_rebase_exact_partial : forall cfg w e cmd um,
+   Since round 2 rebase_exact ignores a left-over <layerconfig>.tmp (which the rewrite consumes), so
+   the former hypothesis no_stale_tmp and the former witness C02_rebase_exact_refuted are gone; the
+   remaining hypotheses are well-formedness of configuration and file tree. *)
+Theorem C02_rebase_exact : forall cfg w e cmd um,
   cfg_ok cfg = true -> fs_ok cfg (wo_fs w) = true -> paths_distinct w = true ->
-  no_stale_tmp cfg (wo_fs w) cmd = true -> e_pretend e = false ->
+  e_pretend e = false ->
   let v := view_of_model cfg w e cmd um in
   match v_cmd v, v_res v with
   | CRebase a b0, ROk => C02.rebase_exact cfg (wo_fs w) (wo_fs (v_after v)) a b0
   | _, _ => true
   end = true.
 Proof. exact rebase_exact_view. Qed.
-Print Assumptions C02_rebase_exact_partial.
+Print Assumptions C02_rebase_exact.
 
-(* a left-over layerconfig.tmp is consumed by the rebase; rebase_exact counts that as a change *)
-Theorem C02_rebase_exact_refuted : exists cfg w e a b0,
-  (cfg_ok cfg && fs_ok cfg (wo_fs w) && paths_distinct w && kernel_wf w && names_distinct cfg w
-   && C02.forest_ok cfg (wo_fs w)) = true /\
-  e_pretend e = false /\ e_fault e = NoFault /\
-  v_res (view_of_model cfg w e (CRebase a b0) []) = ROk /\
-  C02.rebase_exact cfg (wo_fs w) (wo_fs (v_after (view_of_model cfg w e (CRebase a b0) []))) a b0 = false.
-Proof. exact rebase_exact_refuted. Qed.
-Print Assumptions C02_rebase_exact_refuted.
+(* the former counterexample, now an example of correct behaviour: with a left-over
+   b/layerconfig.tmp, `rebase b ""` succeeds, the stale file is gone, rebase_exact and step_spec hold *)
+Theorem C02_rebase_stale_tmp_example :
+  let w := MkWO fs_stale ks0 in
+  let v := view_of_model cfg0 w env_plain (CRebase nb_ []) [] in
+  (fs_ok cfg0 fs_stale, v_res v, exists_ (wo_fs (v_after v)) (bs "/lc/layers/b/layerconfig.tmp"),
+   C02.rebase_exact cfg0 fs_stale (wo_fs (v_after v)) nb_ [], C02.step_spec cfg0 w v)
+  = (true, ROk, false, true, true).
+Proof. exact rebase_consumes_stale_tmp. Qed.
+Print Assumptions C02_rebase_stale_tmp_example.
 
 (* the round trip the exactness proofs rest on: writing a definition that was itself read from a
    layerconfig and reading it back gives the same definition (own proof; C11 states the same) *)
@@ -153,6 +158,17 @@ Theorem C02_rename_exact_partial : forall cfg w e cmd um,
 Proof. exact rename_exact_view. Qed.
 Print Assumptions C02_rename_exact_partial.
 
+(* rename_exact still needs no_stale_tmp: a left-over layerconfig.tmp in a child is consumed when
+   the child's layerconfig is rewritten; the rename succeeds, the forest is fine, rename_exact is false *)
+Theorem C02_rename_exact_refuted : exists cfg w e a b0,
+  (cfg_ok cfg && fs_ok cfg (wo_fs w) && paths_distinct w && kernel_wf w && names_distinct cfg w
+   && C02.forest_ok cfg (wo_fs w)) = true /\
+  e_pretend e = false /\ e_fault e = NoFault /\
+  v_res (view_of_model cfg w e (CRename a b0) []) = ROk /\
+  C02.rename_exact cfg (wo_fs w) (wo_fs (v_after (view_of_model cfg w e (CRename a b0) []))) a b0 = false.
+Proof. exact rename_exact_refuted. Qed.
+Print Assumptions C02_rename_exact_refuted.
+
 (* all four conjuncts of C02.step_spec together *)
 Theorem C02_step_spec_partial : forall cfg w e cmd um,
   cfg_ok cfg = true -> fs_ok cfg (wo_fs w) = true -> names_distinct cfg w = true ->
@@ -168,7 +184,7 @@ Print Assumptions C02_step_spec_partial.
 Theorem C02_hypotheses_satisfiable :
   (cfg_ok cfg0 && fs_ok cfg0 fs0 && kernel_wf wld0 && names_distinct cfg0 wld0 && paths_distinct wld0
    && C02.forest_ok cfg0 fs0 && base_set_up cfg0 fs0
-   && no_stale_tmp cfg0 fs0 (CRebase nb_ []) && no_stale_tmp cfg0 fs0 (CRename na nc)
+   && no_stale_tmp cfg0 fs0 (CRename na nc)
    && (2 <=? length (read_layer_files cfg0 fs0))%nat) = true.
 Proof. exact hyps_satisfiable. Qed.
 Print Assumptions C02_hypotheses_satisfiable.
